@@ -103,7 +103,7 @@ def work(shard):
             L, W = shard["shape"]
             vals = shard["values"]
             it = []
-            for combo in itertools.product(vals, repeat=L * W):
+            for combo in Product([list(vals)] * (L * W)).iter_range(shard["lo"], shard["hi"]):
                 rew = [[combo[i * W + j] for j in range(W)] for i in range(L)]
                 moves = [[(1 if (i + j) % 2 == 0 else 2) for j in range(W)] for i in range(L)]
                 it.append((moves, rew, [[0] * W for _ in range(L)]))
@@ -148,7 +148,7 @@ def plan(ctx):
             spaces.append({"tiles": tiles, "shape_length_x_width": list(shape), "reward_values": list(rewset), "boards": size,
                            "entry_points": ["write_robots"] + (["create_sg_from_board"] if manual else [])})
             heavy = (not ctx.thorough) and tiles >= 3
-            for lo, hi in par.ranges(size, ctx.jobs * 3 if size > 2000 else 1):
+            for lo, hi in par.ranges(size, ctx.jobs * 3 if size > 2000 else (ctx.jobs if size > 100 else 1)):
                 sh = {"kind": "enum", "shape": shape, "rewset": rewset, "lo": lo, "hi": hi, "manual": manual}
                 if heavy:
                     sh["triples"] = TRIPLES[:2]
@@ -161,7 +161,8 @@ def plan(ctx):
                 for lo, hi in par.ranges(size0, ctx.jobs):
                     shards.append({"kind": "enum", "shape": shape, "rewset": (0,), "lo": lo, "hi": hi, "manual": False, "triples": TRIPLES[2:]})
     for shape, vals in (((2, 2), (0, 1, 2, 5)), ((2, 3), (0, 3, 5)), ((3, 2), (0, 3, 5))):
-        shards.append({"kind": "rewards", "shape": shape, "values": vals, "manual": True, "lo": 0})
+        for lo, hi in par.ranges(len(vals) ** (shape[0] * shape[1]), ctx.jobs):
+            shards.append({"kind": "rewards", "shape": shape, "values": vals, "manual": True, "lo": lo, "hi": hi})
         spaces.append({"reward_layout_boards": len(vals) ** (shape[0] * shape[1]), "shape_length_x_width": list(shape), "reward_values": list(vals),
                        "entry_points": ["write_robots", "create_sg_from_board"]})
     rnd = []
